@@ -127,3 +127,17 @@ Definition parse_target (t : str) : outcome parsed :=
     end in
   do '(path, raw) <- set_path rest;
   Ok {| p_path := path; p_rawpath := raw; p_rawquery := q; p_force := force |}.
+
+(* ---- absolute-form request targets ("GET http://host/path?q HTTP/1.1") ----
+   net/url: scheme, then "//" authority up to the next '/', the rest is parsed like an origin-form
+   target; net/http hands the handler the same URL.Path / RawPath / RawQuery.  [origin_form]
+   reduces such a target to its origin-form part (targets without a path are outside the model).
+   Tested against url.ParseRequestURI like the rest (CParse on absolute-form targets). *)
+Definition http_scheme : str := [104; 116; 116; 112; 58; 47; 47].   (* "http://" *)
+Fixpoint drop_authority (s : str) : str :=
+  match s with
+  | [] => []
+  | c :: r => if (c =? 47) || (c =? 63) then s else drop_authority r
+  end.
+Definition origin_form (t : str) : str :=
+  if has_prefix t http_scheme then drop_authority (skipn 7 t) else t.
